@@ -709,6 +709,63 @@ fn run_manager(c: &BCase) -> Result<(bool, bool, bool), Failure> {
 	Ok((false, short, c.easing != Easing::Linear))
 }
 
+// --------------------------------------------------------------------------------------------
+// part C: very many very small updates (device rates up to 192 kHz with an internal buffer of one
+// frame): the tween still takes its duration in audio time
+
+#[derive(Debug, Clone)]
+struct LCase {
+	rate: u32,
+	updates: usize,
+	from: f64,
+	to: f64,
+	/// tween duration as a fraction of the run
+	frac: f64,
+	easing: Easing,
+}
+
+fn decode_long(src: &mut Src) -> LCase {
+	LCase {
+		rate: src.pick(&[192000u32, 48000, 96000, 44100]),
+		updates: src.pick(&[60_000usize, 20_000, 150_000]),
+		from: src.f64_uniform(-50.0, 50.0),
+		to: src.f64_uniform(-50.0, 50.0),
+		frac: src.pick(&[0.8f64, 0.5, 0.97]),
+		easing: gen_easing(src),
+	}
+}
+
+fn run_long(c: &LCase) -> Result<(bool, bool, bool), Failure> {
+	let info = MockInfoBuilder::new().build();
+	let dt = 1.0 / c.rate as f64;
+	let dur = Duration::from_secs_f64(c.updates as f64 * dt * c.frac);
+	let d = dur.as_secs_f64();
+	let mut p = Parameter::new(Value::Fixed(c.from), c.from);
+	p.set(
+		Value::Fixed(c.to),
+		Tween {
+			start_time: StartTime::Immediate,
+			duration: dur,
+			easing: c.easing,
+		},
+	);
+	let span = (c.to - c.from).abs().max(1e-9);
+	for k in 1..=c.updates {
+		p.update(dt, &info);
+		if k % 997 == 0 || k == c.updates {
+			let t = k as f64 * dt;
+			let v = p.value();
+			// the curve over a window of two updates around the elapsed audio time
+			let at = |t: f64| if t >= d { c.to } else { c.from + (c.to - c.from) * ease_ref(c.easing, (t / d).clamp(0.0, 1.0)) };
+			let (a, b) = (at(t - dt), at(t + dt));
+			let (lo, hi) = (a.min(b), a.max(b));
+			ensure!(v >= lo - 1e-9 * span && v <= hi + 1e-9 * span, "follows-the-curve-in-audio-time", "after {k} updates of 1/{} s ({t:.6} s) a tween {} -> {} over {d:.6} s ({:?}) is at {v}, the curve gives [{lo}, {hi}]; case {c:?}", c.rate, c.from, c.to, c.easing);
+		}
+	}
+	ensure!(p.value() == c.to, "ends-exactly-on-target", "after the whole run the value is {}, target {}; case {c:?}", p.value(), c.to);
+	Ok((false, false, c.easing != Easing::Linear))
+}
+
 fn decode(src: &mut Src, tier: Tier) -> Case {
 	let ty = src.pick(&[Ty::F64, Ty::Decibels, Ty::F32, Ty::Panning, Ty::Rate, Ty::Mix, Ty::Speed, Ty::Duration, Ty::Vec3, Ty::Quat, Ty::Tweener]);
 	let dims = match ty {
@@ -800,7 +857,7 @@ impl Property for C06 {
 		"C06"
 	}
 	fn rule(&self) -> &'static str {
-		"each case drives one public kira::Parameter<T> (T in f64, f32, Decibels, Panning, PlaybackRate, Mix, ClockSpeed with all unit pairs, Duration, Vec3, Quat) or the tweener modulator through a generated history of set(target, tween) and update(dt) calls: durations 0 / shorter than an update / long, all seven easings with positive powers, starts immediate / delayed / on a mock clock, overlapping set() calls mid-tween, update steps of buffer size, fractions of it, and multiples. After every update the value is checked against start + (target-start)*ease(elapsed/duration) evaluated with an independent easing implementation over the timing window the property grants (exact for immediate starts; one update for delayed and clock starts): held exactly before the start, inside the hull during, exactly the target once the whole window is past the end, never outside [start, target], previous_value/interpolated_value continuous. One case in six instead tweens a live volume (main track, sub-track, sound or volume-control effect) of a DC signal path through the real manager at 8192..48000 Hz with internal buffers 1..128 and callback sizes that are not multiples of the buffer: the output holds the start value before the command, stays inside [start, target], is on the curve at the end of every internal buffer for the audio time elapsed since the command was picked up (one buffer of lag granted to delayed starts) and is exactly the target once the duration has passed. Non-trivial = a retarget mid-tween, a tween shorter than one update, a non-linear easing, or (manager cases) a callback size that is not a multiple of the buffer; distinct = distinct decoded choices."
+		"each case drives one public kira::Parameter<T> (T in f64, f32, Decibels, Panning, PlaybackRate, Mix, ClockSpeed with all unit pairs, Duration, Vec3, Quat) or the tweener modulator through a generated history of set(target, tween) and update(dt) calls: durations 0 / shorter than an update / long, all seven easings with positive powers, starts immediate / delayed / on a mock clock, overlapping set() calls mid-tween, update steps of buffer size, fractions of it, and multiples. After every update the value is checked against start + (target-start)*ease(elapsed/duration) evaluated with an independent easing implementation over the timing window the property grants (exact for immediate starts; one update for delayed and clock starts): held exactly before the start, inside the hull during, exactly the target once the whole window is past the end, never outside [start, target], previous_value/interpolated_value continuous. One case in six instead tweens a live volume (main track, sub-track, sound or volume-control effect) of a DC signal path through the real manager at 8192..48000 Hz with internal buffers 1..128 and callback sizes that are not multiples of the buffer: the output holds the start value before the command, stays inside [start, target], is on the curve at the end of every internal buffer for the audio time elapsed since the command was picked up (one buffer of lag granted to delayed starts) and is exactly the target once the duration has passed. One case in 240 drives an f64 parameter through 20 000..150 000 updates of one frame at 44.1..192 kHz and checks every 997th value against the curve at the elapsed audio time (two updates of slack, 1e-9 of the span). Non-trivial = a retarget mid-tween, a tween shorter than one update, a non-linear easing, or (manager cases) a callback size that is not a multiple of the buffer; distinct = distinct decoded choices."
 	}
 	fn assumptions(&self) -> Vec<String> {
 		vec![
@@ -819,7 +876,18 @@ impl Property for C06 {
 
 	fn run(&self, tape: &[u32], ctx: &mut Ctx) -> CaseResult {
 		let mut src = Src::new(tape);
-		if src.below(6) == 5 {
+		let family = src.below(6);
+		if family == 4 && src.below(40) == 0 {
+			let case = decode_long(&mut src);
+			ctx.describe(|| format!("{case:?}"));
+			let (_, _, nonlinear) = run_long(&case)?;
+			let mut classes = vec!["many-small-updates"];
+			if nonlinear {
+				classes.push("non-linear-easing");
+			}
+			return Ok(CaseInfo::new(&src, true, classes));
+		}
+		if family == 5 {
 			let case = decode_b(&mut src);
 			ctx.describe(|| format!("{case:?}"));
 			let (_, short, nonlinear) = run_manager(&case)?;
